@@ -108,14 +108,30 @@ func AllInterps() []Interp {
 // reference accepts that class with the stated result. Every quirk is a finding
 // signature; none is on in the reference proper.
 const (
-	QStringFromJSONNumber  = "leniency:String<-json-number"          // 1 -> "1", 1.5 -> "1.5" (text of the number)
-	QIntFromNumericString  = "leniency:Int<-json-integer-string"     // "1" -> 1 (variables only)
-	QFloatFromNumStringVar = "leniency:Float<-json-numeric-string"   // "1" -> 1.0, "-1" -> -1.0 (variables only)
-	QIDFromJSONFloat       = "leniency:ID<-json-float"               // 1.5 -> "1.5" (variables only)
-	QIntIDFromLit          = "leniency:IntID<-"                      // unused placeholder family
-	QEnumLitForLit         = "leniency:custom-scalar<-enum-literal"  // not a quirk: documented in Assumptions
-	QUnsetVarFieldIsNull   = "deviation:unset-variable-in-input-object-literal-is-explicit-null"
-	QTypenameKey           = "leniency:InputObject<-__typename-key" // not enumerated
+	// a JSON number supplied through variables for String: accepted, the string is the number's text
+	QStringFromJSONNumber = "leniency:String<-json-number"
+	// a JSON string holding a base-10 int64 supplied through variables for Int: accepted as that integer
+	QIntFromNumericString = "leniency:Int<-json-integer-string"
+	// a JSON string that strconv.ParseFloat accepts supplied through variables for Float
+	QFloatFromNumStringVar = "leniency:Float<-json-numeric-string"
+	// a JSON number with fraction/exponent supplied through variables for ID: accepted, the ID is the number's text
+	QIDFromJSONFloat = "leniency:ID<-json-float"
+	// graphql.UnmarshalInt32 (the probe's I32 scalar) accepts a string holding a base-10 integer
+	QInt32FromString = "leniency:Int32<-integer-string"
+	// gqlparser's ast.Value.Value turns a variable WITHOUT a runtime value that is used as
+	// an input-object field value inside a literal into an explicit null: the field's default
+	// is not applied, an Omittable field is set(null), a map-backed input has the key.
+	QUnsetVarFieldIsNull = "deviation:unset-variable-as-input-object-field-reads-as-explicit-null"
+	// gqlparser's VariablesInAllowedPosition ignores the default value of the argument /
+	// input field (spec 5.8.5 hasLocationDefaultValue): a nullable variable at a non-null
+	// position that declares a default is rejected although the specification allows it.
+	QStrictVarPosition = "strictness:nullable-variable-at-non-null-position-with-default-rejected"
+	// an integer literal outside int64 at a custom-scalar position (which gqlparser's
+	// validator skips) makes ast.arg2map panic in the generated field function.
+	QPanicHugeIntLiteral = "panic:custom-scalar<-integer-literal-beyond-int64"
+	// a null element in a variable value for a list-of-lists type makes gqlparser's
+	// validator.VariableValues panic (reflect on a zero Value) outside any recover of the executor.
+	QPanicNullInNestedList = "panic:variable-of-nested-list-type<-null-inner-list"
 )
 
 // Quirks is the set of switched-on deviations.
@@ -129,6 +145,11 @@ type Ref struct {
 	IDKind string
 	In     Interp
 	Q      Quirks
+
+	// VarDefs: variable definitions of the operation (for QStrictVarPosition)
+	VarDefs ast.VariableDefinitionList
+	// PanicOK is set when a panic-quirk that is switched on applies to the request
+	PanicOK bool
 
 	// results
 	VarErr   []string // paths (dot form, starting "variable.") of failed variable coercions
@@ -212,6 +233,14 @@ func (r *Ref) idBinding(name string) string {
 	return r.IDKind
 }
 
+func builtinScalar(name string) bool {
+	switch name {
+	case "Int", "Float", "String", "Boolean", "ID":
+		return true
+	}
+	return false
+}
+
 // coerceScalar implements section 3.5 input coercion for the built-in scalars, the
 // probe's Lit scalar and the ID-like scalars. ok=false: the value cannot be coerced.
 func (r *Ref) coerceScalar(name string, x in) (SV, bool) {
@@ -229,6 +258,20 @@ func (r *Ref) coerceScalar(name string, x in) (SV, bool) {
 		}
 		if x.kind == "string" && !x.literal && r.Q[QIntFromNumericString] {
 			if i, err := strconv.ParseInt(x.s, 10, 64); err == nil {
+				return SV{K: "int", I: big.NewInt(i)}, true
+			}
+		}
+		return SV{}, false
+	case "I32":
+		// the probe's scalar with the specification's Int semantics: integers in the signed
+		// 32-bit range only
+		if x.kind == "number" && (x.num.intSyntax || (!x.literal && x.num.i != nil && r.In.IntegralFloatIsInteger)) {
+			if x.num.i.Cmp(big.NewInt(math.MinInt32)) >= 0 && x.num.i.Cmp(big.NewInt(math.MaxInt32)) <= 0 {
+				return SV{K: "int", I: x.num.i}, true
+			}
+		}
+		if x.kind == "string" && r.Q[QInt32FromString] {
+			if i, err := strconv.ParseInt(x.s, 10, 32); err == nil {
 				return SV{K: "int", I: big.NewInt(i)}, true
 			}
 		}
@@ -296,7 +339,7 @@ func (r *Ref) coerceScalar(name string, x in) (SV, bool) {
 			return SV{K: "int", I: i}, true
 		default:
 			i, ok := new(big.Int).SetString(text, 10)
-			if !ok || strings.HasPrefix(text, "+") || i.Sign() < 0 || i.Cmp(maxUint) > 0 || (text != "0" && strings.HasPrefix(text, "-")) {
+			if !ok || strings.HasPrefix(text, "+") || strings.HasPrefix(text, "-") || i.Cmp(maxUint) > 0 {
 				return SV{}, false
 			}
 			return SV{K: "int", I: i}, true
@@ -340,6 +383,9 @@ func (r *Ref) coerceJSON(t *ast.Type, j any, path []string, fail func([]string))
 			out := SV{K: "list", L: []SV{}}
 			good := true
 			for i, e := range l {
+				if e == nil && t.Elem.Elem != nil && r.Q[QPanicNullInNestedList] {
+					r.PanicOK = true
+				}
 				v, ok := r.coerceJSON(t.Elem, e, cp(path, strconv.Itoa(i)), fail)
 				if !ok {
 					good = false
@@ -519,6 +565,9 @@ func (r *Ref) coerceLiteral(t *ast.Type, v *ast.Value, vars map[string]SV, path 
 			if v.Kind == ast.FloatValue {
 				n.intSyntax = false // 1.0 in query text is a FloatValue whatever its value
 			}
+			if n.intSyntax && !fitsInt64(n.i) && !builtinScalar(def.Name) && r.Q[QPanicHugeIntLiteral] {
+				r.PanicOK = true
+			}
 			x = in{kind: "number", num: n, literal: true}
 		case ast.StringValue, ast.BlockValue:
 			x = in{kind: "string", s: v.Raw, literal: true}
@@ -561,6 +610,11 @@ func (r *Ref) coerceLiteral(t *ast.Type, v *ast.Value, vars map[string]SV, path 
 			var fv SV
 			has := false
 			if c != nil {
+				if c.Kind == ast.Variable && fd.DefaultValue != nil && r.strictVarPosition(c.Raw, fd.Type) {
+					fail(fp)
+					good = false
+					continue
+				}
 				if c.Kind == ast.Variable && r.Q[QUnsetVarFieldIsNull] {
 					if _, set := vars[c.Raw]; !set {
 						// deviation: a variable without a runtime value reads as an explicit null
@@ -608,14 +662,31 @@ type Expect struct {
 	Reject bool
 	// ErrPaths: the positions that fail (dot paths; "variable.v..." or "<key>.<arg>...").
 	ErrPaths []string
+	// PanicOK: a switched-on panic quirk applies; a recovered panic is the expected outcome
+	PanicOK bool
 	// Args: coerced argument values; an argument without entry was not provided and has no default.
 	Args map[string]SV
+}
+
+// strictVarPosition: with QStrictVarPosition on, a nullable variable without a non-null
+// default used at a non-null location is a validation error even when the location has a
+// default value.
+func (r *Ref) strictVarPosition(name string, loc *ast.Type) bool {
+	if !r.Q[QStrictVarPosition] || !loc.NonNull {
+		return false
+	}
+	vd := r.VarDefs.ForName(name)
+	if vd == nil || vd.Type.NonNull {
+		return false
+	}
+	return vd.DefaultValue == nil || vd.DefaultValue.Kind == ast.NullValue
 }
 
 // Evaluate runs CoerceVariableValues and CoerceArgumentValues for the first root field of
 // the (single) operation of doc.
 func (r *Ref) Evaluate(doc *ast.QueryDocument, rawVars map[string]any) Expect {
 	op := doc.Operations[0]
+	r.VarDefs = op.VariableDefinitions
 	vars := map[string]SV{}
 	reqOK := true
 	for _, vd := range op.VariableDefinitions {
@@ -637,7 +708,7 @@ func (r *Ref) Evaluate(doc *ast.QueryDocument, rawVars map[string]any) Expect {
 		}
 	}
 	if !reqOK {
-		return Expect{RequestError: true, Reject: true, ErrPaths: r.VarErr}
+		return Expect{RequestError: true, Reject: true, ErrPaths: r.VarErr, PanicOK: r.PanicOK}
 	}
 	f := op.SelectionSet[0].(*ast.Field)
 	key := f.Alias
@@ -653,6 +724,11 @@ func (r *Ref) Evaluate(doc *ast.QueryDocument, rawVars map[string]any) Expect {
 		var val SV
 		has := false
 		if a != nil {
+			if a.Value.Kind == ast.Variable && ad.DefaultValue != nil && r.strictVarPosition(a.Value.Raw, ad.Type) {
+				r.failField(path)
+				good = false
+				continue
+			}
 			v, pres, ok := r.coerceLiteral(ad.Type, a.Value, vars, path, r.failField)
 			if !ok {
 				good = false
@@ -678,9 +754,9 @@ func (r *Ref) Evaluate(doc *ast.QueryDocument, rawVars map[string]any) Expect {
 		}
 	}
 	if !good {
-		return Expect{Reject: true, ErrPaths: r.FieldErr}
+		return Expect{Reject: true, ErrPaths: r.FieldErr, PanicOK: r.PanicOK}
 	}
-	return Expect{Args: args}
+	return Expect{Args: args, PanicOK: r.PanicOK}
 }
 
 // DecodeVariables decodes the variables JSON exactly as gqlgen's transports decode a
